@@ -42,3 +42,21 @@ Proof.
   try (right; right; split; [reflexivity|]; apply negb_true_iff; assumption).
   all: try (exfalso; simpl in *; congruence).
 Qed.
+
+(** C16: a task is never resumed before the tracer's options (PTRACE_O_EXITKILL among them) were
+    set on it: whenever a stop is answered with PTRACE_CONT, the task is in the traced set, and a
+    task enters that set only together with a successful PTRACE_SETOPTIONS *)
+Definition has_cont (l : list preq) : bool := existsb (fun r => match r with ReqCont _ => true | _ => false end) l.
+
+Theorem resumed_implies_options_set st pgid pid w so tr :
+  ws_exited w = false -> ws_signaled w = false -> ws_stopped w = true ->
+  let o := handle st pgid pid w so tr in
+  has_cont (o_reqs o) = true -> zmem pid (h_traced (o_state o)) = true /\
+  (zmem pid (h_traced st) = false -> so = SoOk /\ In ReqSetOptions (o_reqs o)).
+Proof.
+  intros E1 E2 E3. unfold handle. rewrite E1, E2, E3.
+  destruct (zmem pid (h_traced st)) eqn:Et; simpl negb; cbn [andb];
+  destruct so; destruct tr; crush_ifs; simpl; intros H; try discriminate;
+  try (rewrite Et); try (rewrite Z.eqb_refl);
+  repeat split; try reflexivity; try discriminate; try (intros; discriminate); auto.
+Qed.
